@@ -354,3 +354,28 @@ def lint_epsilon(c, prog):
                 else:
                     c.ok(R, inst)
     c.floor(R, n_sites, 2, "epsilon comparison sites")
+
+
+def rule_exact(c, prog, R, who):
+    """C14 / C06 do not list the snap C01 permits: where a value must come back equal, the short form (one rotation id
+    instead of nine floats) may only be chosen for a matrix that IS one of the 24"""
+    from sa import flow
+    c.rule(R, "the test that replaces a rotation matrix by a one-byte rotation id is exact: no tolerance comparison (`.. <= EPSILON`) on the way from Matrix3::to_basic_rotation_id to its verdict — a matrix within epsilon of an axis-aligned one is otherwise written as the id and read back as a different matrix")
+    g = flow.CallGraph(prog)
+    root = prog.fn("rbx_types::basic_types::Matrix3::to_basic_rotation_id")
+    reach = g.reach([root.path])
+    tol = []
+    for path in sorted(reach):
+        fn = prog.fns[path]
+        if fn.body is None or fn.crate != "rbx_types":
+            continue
+        for n in core.walk_fn(fn):
+            if n.get("k") == "Binary" and n["op"] in ("<=", "<", ">", ">="):
+                if any(y.get("k") == "Path" and str(y.get("def", "")).endswith("::EPSILON") for y in core.walk(n)):
+                    tol.append((fn, n))
+    inst = "rotation-id:exact-match"
+    if tol:
+        fns = sorted({core.short(f.path) for f, _n in tol})
+        c.violation(R, "rotation-id|approximate-match|" + ",".join(fns), f"Matrix3::to_basic_rotation_id decides through {', '.join(fns)}, which accepts |v| <= EPSILON as 0 and ||v| - 1| <= EPSILON as 1: {who} writes such a matrix (Ry(pi) computed in f32, sin = -8.74e-8; an identity with a 1.0 + EPSILON entry; any -0.0 entry) as a rotation id and it is read back as the exact axis-aligned matrix, != the value written", core.loc(tol[0][1]), instance=inst)
+    else:
+        c.ok(R, inst)
